@@ -187,6 +187,11 @@ func c13Setup() *c13World {
 	stub := "#!/bin/sh\nfor a in \"$@\"; do printf '%s\\000' \"$a\" >> " + dir + "/argv.log; done\nprintf '\\001' >> " + dir + "/argv.log\nexit 0\n"
 	os.WriteFile(dir+"/cc.sh", []byte(stub), 0o755)
 	os.WriteFile(dir+"/nasm.sh", []byte(stub), 0o755)
+	// a command on PATH whose only effect is the marker file: a service name that reaches a shell can run it
+	// without needing a space or a slash
+	os.MkdirAll(dir+"/bin", 0o755)
+	os.WriteFile(dir+"/bin/mk", []byte("#!/bin/sh\n: > "+dir+"/MARKER\n"), 0o755)
+	os.Setenv("PATH", dir+"/bin:"+os.Getenv("PATH"))
 	os.Chdir(dir) // NewBuilder takes the payload sources from <cwd>/payloads/Demon
 	return &c13World{dir: dir}
 }
@@ -349,11 +354,37 @@ func runC13(c *Ctx) {
 			strList(3, func() string { return "/" + strings.ReplaceAll(uni(), ",", "") }), proxy)
 	}
 	svcNames := []string{"svc", "My Service", "a\"; touch MARKER; echo \"", "$(touch MARKER)", "`touch MARKER`", "x' ; touch MARKER ; '", "a&&touch MARKER", "a|touch MARKER", "a\ntouch MARKER", "name-with_dots.1", ""}
+	// every way a name can reach a shell, wrapped in every character that is not a letter, digit, '_', '.', '-'
+	var svcBattery []string
+	for _, x := range []string{"`mk`", "$(mk)", ";mk;", "&mk&", "|mk|", "\nmk\n", "&&mk", "||mk", ">MARKER", "\tmk", "mk"} {
+		for _, wr := range []string{"", "a", "[", "]", "^", "_", "\\", "'", "\"", "{", "}", "~", "@", "*", "?", "!", "#", "%", "=", "+", ",", ":", "/", "(", ")", "<", " "} {
+			svcBattery = append(svcBattery, wr+x+wr)
+		}
+	}
 	w.line(c, "reset")
+	// quick: the two substitution forms in every wrapper (2 x 27), plus a slice of the rest; thorough: the whole table
+	nw := len(svcBattery) / 11
+	todo := append([]string{}, svcBattery[:2*nw]...)
+	rest := svcBattery[2*nw:]
+	if c.Tier == "thorough" {
+		todo = append(todo, rest...)
+	} else {
+		off := r.Intn(len(rest))
+		for i := 0; i < 16; i++ {
+			todo = append(todo, rest[(i*37+off)%len(rest)])
+		}
+	}
+	for _, svc := range todo {
+		c.Count("build.service.battery")
+		w.line(c, "build svc="+hex.EncodeToString([]byte(svc))+" "+mostlyValidOptions()+" L=smb pipe="+H("p")+" kd=0 wh="+H(""))
+	}
 	for c.Lines < c.N {
 		switch k := r.Intn(40); {
 		case k == 0 && c.Lines > 5:
 			svc := gen.Pick(r, svcNames)
+			if r.Bool() {
+				svc = gen.Pick(r, svcBattery)
+			}
 			c.Count("build.service")
 			w.line(c, "build svc="+hex.EncodeToString([]byte(svc))+" "+mostlyValidOptions()+" L=smb pipe="+H("p")+" kd=0 wh="+H(""))
 		case k < 20:
